@@ -17,7 +17,8 @@ static size_t LIM;
 static float f_from_bits(uint32_t b) { float f; memcpy(&f, &b, 4); return f; }
 static uint64_t g_built_variants[16];
 
-static cbor_item_t* build_v(const rnode* n, struct vh_rng* r);
+cbor_item_t* ser_build_variant(const rnode* n, struct vh_rng* r);
+#define build_v ser_build_variant
 
 static cbor_item_t* build_int(const rnode* n, struct vh_rng* r) {
   cbor_item_t* it;
@@ -42,7 +43,7 @@ static cbor_item_t* build_int(const rnode* n, struct vh_rng* r) {
   return it;
 }
 
-static cbor_item_t* build_v(const rnode* n, struct vh_rng* r) {
+cbor_item_t* ser_build_variant(const rnode* n, struct vh_rng* r) {
   cbor_item_t* it = NULL;
   switch (n->kind) {
     case R_UINT: case R_NEGINT: return build_int(n, r);
@@ -556,7 +557,7 @@ static void dec_case(const uint8_t* in, size_t n) {
 static void dec_cb(const uint8_t* p, size_t n, void* ud) { (void)ud; dec_case(p, n); }
 
 /* descriptor 'A' + u64 unit + u64 seed */
-static rnode* api_shadow(uint64_t u, uint64_t seed, struct vh_rng* r) {
+rnode* ser_api_shadow(uint64_t u, uint64_t seed, struct vh_rng* r) {
   uint64_t nsys = gen_systematic_count();
   vh_rng_seed(r, seed * 0x51ed270b + u);
   rnode* t;
@@ -573,7 +574,7 @@ static void api_case(uint64_t u, uint64_t seed) {
   for (int i = 0; i < 8; i++) { desc[1 + i] = (uint8_t)(u >> (56 - 8 * i)); desc[9 + i] = (uint8_t)(seed >> (56 - 8 * i)); }
   if (!vh_case(desc, 17)) return;
   struct vh_rng r;
-  rnode* t = api_shadow(u, seed, &r);
+  rnode* t = ser_api_shadow(u, seed, &r);
   if (!t) return;
   ta_reset_stats();
   cbor_item_t* it = build_v(t, &r);
